@@ -614,7 +614,7 @@ def gen_vmap_case(rng, kind):
         pool_o = [k for k in (0, 0, 1, -1, -2, 2) if -rk <= k < rk]
         untainted = not is_t(o[1])
         outp.append(None if untainted and rng.random() < 0.4 else rng.choice(pool_o))
-    if len(set(map(repr, outp))) == 1 and rng.random() < 0.5:
+    if len(set(map(repr, outp))) == 1 and rng.random() < 0.5 and (not isinstance(outp[0], dict) or len(outp) == 1):
       out_axes = {'u': outp[0]}
     else:
       out_axes = {'t': outp}
@@ -827,11 +827,13 @@ def check_vmap(ctx, drv, cases):
       except Exception as e:
         ref = {'rows': [], 'ref_failed': exc_class(e)}
     verdict = vmap_verdict(case) if status == 'ok' else True
-    f = make_fn(case['prog'])
+    single = isinstance(case['out_axes'].get('u'), dict) and len(case['prog']['outs']) == 1
+    f = make_fn(case['prog'], single=single)
     sugar = ctx.rng.random() < 0.5
 
-    def transform(objs, case=case, f=f, sugar=sugar):
-      return nnx.vmap(f, in_axes=axes_python(case['in_axes'], sugar), out_axes=axes_python(case['out_axes'], sugar), axis_size=case['axis_size'])(*objs)
+    def transform(objs, case=case, f=f, sugar=sugar, single=single):
+      r = nnx.vmap(f, in_axes=axes_python(case['in_axes'], sugar), out_axes=axes_python(case['out_axes'], sugar), axis_size=case['axis_size'])(*objs)
+      return (r,) if single else r
 
     res, store, _ = run_real(case, transform)
     req = dict(model_req_common(case), in_axes=case['in_axes'], out_axes=case['out_axes'], axis_size=case['axis_size'], verdict=verdict, body=(ref or {}).get('rows', []))
